@@ -427,6 +427,7 @@ def run(ctx, rep):
     from sa import dtypes
     rep.rule('C08.T', "times / dates given as Python numbers enter the computation at the requested precision: a tensor built from them without a dtype (torch's default float32) is neither computed with nor converted afterwards")
     dtypes.check_default_precision(ctx, rep, 'C08.T', ['torchtree.evolution.coalescent'], 3)
+    dtypes.check_work_buffers(ctx, rep, 'C08.T', ['torchtree.evolution.coalescent'])        # no such array today: the rule is kept alive by its embedded example
     rep.rule('C08.O', "vectors in the order of the argument and vectors in sorted order are kept apart: element-wise operations, masked selections, gathers and scatters combine one family only (order-kind analysis of every sorting method of coalescent.py)")
     from sa import orders
     orders.check_orders(ctx, rep, 'C08.O', MOD, floor=8)
@@ -444,6 +445,7 @@ def run(ctx, rep):
     from sa.report import RuleProxy
     nb = c10.check_whole_reductions(ctx, RuleProxy(rep, 'C08.B', 'reductions::'), only=lambda mname: mname == MOD)
     rep.ok('C08.B', 'reductions::coalescent::scanned', '', {'reductions_without_axis_classified': nb})
+    c10.check_first_sample_rows(ctx, RuleProxy(rep, 'C08.B', 'rows::'), rule='C08.B', only=lambda mname: mname == MOD)
     rep.explanation = (
         "The event bookkeeping that every coalescent implementation repeats (ten copies) is extracted by dataflow role — the vector handed to argsort, "
         "the permutation gathered into heights and marks, the mark vector's parts and their order against the height vector's parts, the lineage "
